@@ -243,6 +243,9 @@ func (w *SrvWorld) checkE2E() {
 			if rc.Closed && wr.T >= rc.ClosedAt {
 				continue
 			}
+			if w.partitioned(wr.T, wr.T+2*sec) {
+				continue // datagrams sent into a partition are lost; what counts is that traffic flows again after it
+			}
 			got := false
 			for _, p := range w.Peers {
 				p.mu.Lock()
@@ -260,7 +263,7 @@ func (w *SrvWorld) checkE2E() {
 			}
 		}
 		for key, pl := range w.PeerProbes {
-			if pl.Target != rc.Spec.ID || (rc.Closed && pl.T >= rc.ClosedAt-sec) {
+			if pl.Target != rc.Spec.ID || (rc.Closed && pl.T >= rc.ClosedAt-sec) || w.partitioned(pl.T, pl.T+2*sec) {
 				continue
 			}
 			got := false
@@ -286,6 +289,17 @@ func (w *SrvWorld) checkE2E() {
 			}
 		}
 	}
+}
+
+// partitioned: some partition window of the plan overlaps [t0, t1].
+func (w *SrvWorld) partitioned(t0, t1 int64) bool {
+	for i := range w.P.NetFaults {
+		f := &w.P.NetFaults[i]
+		if f.Do == "partition" && t1 >= f.AtNS && t0 < f.AtNS+f.Arg {
+			return true
+		}
+	}
+	return false
 }
 
 type peerProbe struct {
